@@ -75,7 +75,7 @@ def gen_ops(rng, typ, order, U, nops, allow_delete=True):
             else:
                 ops.append(scan())
             continue
-        kind = rng.choice(["asc", "asc", "desc", "delrun", "delrun", "mix", "upd", "scans", "probe", "refill"])
+        kind = rng.choice(["asc", "asc", "desc", "delrun", "delrun", "mix", "upd", "scans", "probe", "refill", "drainR", "drainL", "fill"])
         L = rng.randint(1, max(2, min(3 * order, 40)))
         c0 = rng.randrange(U)
         if kind == "asc":
@@ -100,8 +100,15 @@ def gen_ops(rng, typ, order, U, nops, allow_delete=True):
         elif kind == "refill" and allow_delete:
             ops += ["D %s" % key(c0 + i) for i in range(L)]
             ops += ["I %s %s" % (key(c0 + i), val()) for i in rng.sample(range(L), L)]
+        elif kind == "fill":
+            ops += ["I %s %s" % (key(c), val()) for c in range(0, U, rng.choice([1, 1, 2]))][:4 * order * order]
+        elif kind == "drainR" and allow_delete:
+            # long delete run from the right end: internal nodes underflow with a rich left sibling (borrow from the left)
+            ops += ["D %s" % key(U - 1 - i) for i in range(rng.randint(order, min(U, 8 * order)))]
+        elif kind == "drainL" and allow_delete:
+            ops += ["D %s" % key(i) for i in range(rng.randint(order, min(U, 8 * order)))]
         # probe around what was just touched: a lost or unreachable key shows up in a Search
-        if kind in ("asc", "desc", "delrun", "mix", "refill") and rng.random() < 0.7:
+        if kind in ("asc", "desc", "delrun", "mix", "refill", "drainR", "drainL") and rng.random() < 0.7:
             ops += ["S %s" % key(c0 + rng.randint(-L, L)) for _ in range(rng.randint(1, 4))]
     ops = ops[:nops]
     # final sweep: every class (or a sample of 80) is searched once
@@ -133,3 +140,41 @@ def write_cases(cases, path):
             f.write("CASE %s type=%s order=%d%s\n" % (c["id"], c["type"], c["order"], " nodump=1" if c.get("nodump") else ""))
             f.write("KEYS %s\n" % " ".join(c["keys"]))
             f.write("OPS %s\n" % ";".join(c["ops"]))
+
+
+def gen_growshrink_cases(seed, n, types, orders=(4, 8)):
+    """Fill a tree to three or four levels, then delete most keys (random order, or from one end, or
+    alternating ends) with probes in between: internal-level borrows from both sides, merges, root collapses."""
+    rng = random.Random(seed * 3571 + 3)
+    cases = []
+    for i in range(n):
+        typ = types[i % len(types)]
+        order = orders[(i // len(types)) % len(orders)]
+        ntags = 3 if typ == "comparable" else 1
+        U = rng.randint(order * order * 2, min(600, order * order * order + order))
+        ks = list(range(U))
+        rng.shuffle(ks) if rng.random() < 0.6 else None
+        ops = ["I %d.%d %d" % (c, rng.randrange(ntags), c % 1000) for c in ks]
+        style = rng.choice(["random", "right", "left", "ends", "middle_out"])
+        dels = list(range(U))
+        if style == "random":
+            rng.shuffle(dels)
+        elif style == "right":
+            dels.reverse()
+        elif style == "ends":
+            dels = [x for pair in zip(range(U // 2), range(U - 1, U // 2 - 1, -1)) for x in pair]
+        elif style == "middle_out":
+            mid = U // 2
+            dels = [x for pair in zip(range(mid, U), range(mid - 1, -1, -1)) for x in pair]
+        dels = dels[:rng.randint(U // 2, U)]
+        for j, c in enumerate(dels):
+            ops.append("D %d.%d" % (c, rng.randrange(ntags)))
+            if j % 7 == 0:
+                ops.append("S %d.%d" % (rng.randrange(U), rng.randrange(ntags)))
+            if j % 41 == 0:
+                ops.append("C %d.0 %d 1" % (rng.randrange(U), rng.choice([-1, 5])))
+            if j % 23 == 0 and rng.random() < 0.5:
+                ops.append("I %d.%d %d" % (rng.randrange(U), rng.randrange(ntags), j))
+        ops.append("C 0.0 -1 0")
+        cases.append(dict(id="g%d" % i, type=typ, order=order, keys=key_table(rng, typ, U), ops=ops))
+    return cases
